@@ -121,8 +121,12 @@ func c05r1(p *Program, r *Report) {
 		if !ok {
 			if ok2, why2 := dischargeAtCallSites(p, ob); ok2 {
 				ok, why = true, why2
+			} else if ok3, why3 := dischargeAtCallSitesRel(p, ob); ok3 {
+				ok, why = true, why3
 			} else if why2 != "" {
 				why += "; as a precondition: " + why2
+			} else if why3 != "" {
+				why += "; as a precondition: " + why3
 			}
 		}
 		if !ok {
@@ -180,6 +184,16 @@ func callerSupplied(p *Program, ob BoundsOb) bool {
 	}
 	if isParam(v) {
 		return true
+	}
+	// a (comma-ok) type assertion of a parameter:  dests, ok := value.([]interface{})
+	if singleAssigned(info, ob.Fn.Decl.Body, v) {
+		if d := localDefMulti(info, ob.Fn, id); d != nil {
+			if ta, ok := ast.Unparen(d).(*ast.TypeAssertExpr); ok && ta.Type != nil {
+				if sid, ok := ast.Unparen(ta.X).(*ast.Ident); ok && isParam(info.Uses[sid]) {
+					return true
+				}
+			}
+		}
 	}
 	// binding of a type switch over a parameter:  switch v := value.(type) { case []interface{}: ... v[i] }
 	found := false
